@@ -38,6 +38,14 @@ pub struct Tls {
     pub in_call: Cell<bool>,
     /// waker variant B is one waker shared by all slots (Cfg::sw)
     pub shared_b: Cell<bool>,
+    /// number of `CheckedLock`s this thread holds right now
+    pub locks_held: Cell<u32>,
+    /// "second thread in the window": called from inside `wake()` when the wake-up is delivered
+    /// during a library call while no `CheckedLock` is held (context address, callback)
+    pub reactor: Cell<Option<(usize, unsafe fn(usize, usize))>>,
+    pub reacting: Cell<bool>,
+    /// wake-ups delivered inside a library call with no `CheckedLock` held (whole history)
+    pub window_wakes: Cell<u32>,
 }
 
 #[allow(clippy::declare_interior_mutable_const)]
@@ -66,6 +74,10 @@ thread_local! {
         clock: Cell::new(0),
         in_call: Cell::new(false),
         shared_b: Cell::new(false),
+        locks_held: Cell::new(0),
+        reactor: Cell::new(None),
+        reacting: Cell::new(false),
+        window_wakes: Cell::new(0),
     } };
 }
 
@@ -115,6 +127,10 @@ pub fn reset_history() {
         }
         t.overdrop.set(false);
         t.log_len.set(0);
+        t.locks_held.set(0);
+        t.reactor.set(None);
+        t.reacting.set(false);
+        t.window_wakes.set(0);
         t.armed.set(false);
         t.allocs.set(0);
         t.deallocs.set(0);
@@ -183,7 +199,55 @@ pub fn clock_set(v: u64) {
 // ---------------------------------------------------------------------------------------------
 // Wakers: the data pointer encodes the waker id, no allocation, no shared state.
 
+/// `CheckedLock` bookkeeping: +1 on lock, -1 on unlock.
+pub fn lock_delta(d: i32) {
+    TLS.with(|t| {
+        let v = t.locks_held.get();
+        t.locks_held.set(if d > 0 { v + 1 } else { v.saturating_sub(1) });
+    })
+}
+
+pub fn locks_held() -> u32 {
+    TLS.with(|t| t.locks_held.get())
+}
+
+pub fn window_wakes() -> u32 {
+    TLS.with(|t| t.window_wakes.get())
+}
+
+/// Installs (or removes) the reaction callback. The callback runs inside `wake()` when - and only
+/// when - the wake-up arrives during a library call on a `CheckedLock` flavour while the
+/// primitive's internal lock is free: the instant at which another thread could already act on
+/// the woken future. While the lock is held a second thread would block until the call is over,
+/// which the histories of whole calls cover already.
+pub fn set_reactor(r: Option<(usize, unsafe fn(usize, usize))>) {
+    TLS.with(|t| t.reactor.set(r))
+}
+
+fn maybe_react(id: usize) {
+    let r = TLS.with(|t| {
+        if t.in_call.get() && t.locks_held.get() == 0 && !t.reacting.get() {
+            t.reactor.get()
+        } else {
+            None
+        }
+    });
+    if let Some((ctx, f)) = r {
+        TLS.with(|t| {
+            t.window_wakes.set(t.window_wakes.get() + 1);
+            t.reacting.set(true);
+        });
+        unsafe { f(ctx, id) };
+        TLS.with(|t| t.reacting.set(false));
+    }
+}
+
 fn record_wake(id: usize) {
+    record_wake_inner(id);
+    maybe_react(id);
+}
+
+fn record_wake_inner(id: usize) {
     TLS.with(|t| {
         let v = t.seq.get() + 1;
         t.seq.set(v);
@@ -288,6 +352,15 @@ unsafe impl GlobalAlloc for CountingAlloc {
 /// (allocations, deallocations) counted while armed since the last reset.
 pub fn alloc_counts() -> (u64, u64) {
     TLS.with(|t| (t.allocs.get(), t.deallocs.get()))
+}
+
+/// Runs harness bookkeeping with the allocation guard switched off (used by window reactions,
+/// which run inside a library call).
+pub fn unarmed<R>(f: impl FnOnce() -> R) -> R {
+    let was = TLS.with(|t| t.armed.replace(false));
+    let r = f();
+    TLS.with(|t| t.armed.set(was));
+    r
 }
 
 pub fn alloc_reset() {
